@@ -29,6 +29,8 @@ def run(tier, rep):
         runs += vlib.read_ndjson(out)
     items = sorted({r["item"] for r in runs})
     singles = items[:: max(1, len(items) // (40 if thorough else 5))]
+    # and the items that come with an Extension of their own or use the functions an Extension may re-bind
+    singles += [n for n in items if (n.startswith("c13/ext-") or n.startswith("c13/builtin-")) and n not in singles]
     for i, name in enumerate(singles):
         out = os.path.join(vlib.scratch(), "c15.single%d.ndjson" % i)
         recs, _ = vlib.run_vh(["c15-run", out, str(100 + i), "only=" + name], env=envs[(i + 1) % len(envs)])
